@@ -244,7 +244,7 @@ func (s *bulkSide) singleAt(o bulkOp, ids []uint64) elemOutcome {
 		out = elemOutcome{OK: true, Tx: &v}
 	case bulking.ActionRevertTransaction:
 		_, res, _, err := s.c.RevertTransaction(ctx, ledgercontroller.Parameters[ledgercontroller.RevertTransaction]{IdempotencyKey: e.IK,
-			Input: ledgercontroller.RevertTransaction{TransactionID: e.TxID, Force: e.Force, Metadata: toMD(nil)}})
+			Input: ledgercontroller.RevertTransaction{TransactionID: e.TxID, Force: e.Force, AtEffectiveDate: e.AtEffectiveDate, Metadata: toMD(nil)}})
 		if err != nil {
 			return elemOutcome{Kind: classify(err), Err: err.Error()}
 		}
@@ -513,6 +513,7 @@ func genBulkOp(t *rapid.T, nCommitted int, prevIK []bulkOp, now time.Time) bulkO
 	case "revert":
 		o.Ord = pickOrd()
 		o.Force = rapid.Bool().Draw(t, "force")
+		o.AtEffectiveDate = rapid.IntRange(0, 2).Draw(t, "atEffectiveDate") == 0
 	case "saveTxMeta":
 		o.Ord = pickOrd()
 		o.Meta = map[string]string{rapid.SampledFrom(metaKeys).Draw(t, "key"): gen.FreeText().Draw(t, "val")}
